@@ -2,6 +2,7 @@
 #define VF_MAIN_TU 1
 #include "common/monitor.hpp"
 #include "common/iface.hpp"
+#include "common/routes.hpp"
 #include "common/oracle.hpp"
 #include "common/gen.hpp"
 #include "common/fd.hpp"
@@ -18,6 +19,7 @@ int main(int argc, char **argv)
         return 2;
     }
     installCrashHandlers();
+    installRoutesHook();
     Ctx c;
     c.a = a;
     c.prop_hash = hashStr(a.prop.c_str());
